@@ -12,7 +12,7 @@
 From Coq Require Import NArith List String Bool.
 From Rodbus Require Import Base.Outcome Base.ClientTypes Model.Range Model.ClientRequest Model.ClientPaths
   Gen.ClientTables Gen.SessionErrors Gen.FfiTables Model.Ffi.
-From Rodbus Require Model.ClientTask.
+From Rodbus Require Model.ClientTask Spec.FfiSpec.
 Import ListNotations.
 Local Open Scope N_scope.
 
@@ -116,6 +116,32 @@ Definition steps_of (cc : c_call) : list call_step :=
    invocations, given how the queue answers try_send and what the client task later does with the command *)
 Definition c_function (channel_null : bool) (cc : c_call) (snd_ : send_outcome) (task_ : list task_op) : ffi_param_error * list cb_event :=
   ffi_call (ft_of cc) (c_name cc, steps_of cc) (env_of channel_null cc snd_ task_).
+
+(* ---------------------------------------------------------------- one list object, several calls *)
+(* `list_args` (regenerated from client_channel_write_multiple_coils / _registers): how the function borrows the
+   caller's list object and which expression hands its values to WriteMultiple::from. Interpreted here:
+     items.inner.clone()                 the call sees the Vec, the object keeps it
+     std::mem::take(&mut items.inner)    the call sees the Vec, the object is left EMPTY (needs a mutable borrow)
+     anything else                       unknown (None) *)
+Definition list_use (fn : string) : string * string :=
+  match find (fun r => String.eqb (fst (fst r)) fn) list_args with Some r => (snd (fst r), snd r) | None => ("", "") end.
+Definition list_read {A} (fn : string) (l : list A) : option (list A) :=
+  let t := snd (list_use fn) in
+  if String.eqb t "items.inner.clone()" then Some l
+  else if String.eqb t "std::mem::take(&mutitems.inner)" && String.eqb (fst (list_use fn)) "as_mut" then Some l else None.
+Definition list_left {A} (fn : string) (l : list A) : option (list A) :=
+  let t := snd (list_use fn) in
+  if String.eqb t "items.inner.clone()" then Some l
+  else if String.eqb t "std::mem::take(&mutitems.inner)" && String.eqb (fst (list_use fn)) "as_mut" then Some [] else None.
+(* per call of the sequence: its start address and the Vec it reads from the object (None: not determined) *)
+Fixpoint list_calls {A} (fn : string) (l : option (list A)) (steps : list (Spec.FfiSpec.list_step A)) : list (N * option (list A)) :=
+  match steps with
+  | [] => []
+  | Spec.FfiSpec.LsAdd x :: rest => list_calls fn (option_map (fun v => list_add v x) l) rest
+  | Spec.FfiSpec.LsCall s :: rest =>
+      (s, match l with Some v => list_read fn v | None => None end)
+        :: list_calls fn (match l with Some v => list_left fn v | None => None end) rest
+  end.
 
 (* ---------------------------------------------------------------- errors: the two client models' classes as rodbus::RequestError *)
 (* p1's codec errors (Model/ClientRequest.req_err; the RequestError variant is in its comment there) *)
